@@ -91,13 +91,16 @@ def depr_reason(d):
 
 
 def _wrap_out(draw, base, allow_list=True):
-    k = draw(st.integers(0, 9))
+    k = draw(st.integers(0, 10))
     if k <= 4 or not allow_list:
         return base + ("!" if draw(st.integers(0, 3)) == 0 else "")
     inner = base + ("!" if draw(st.booleans()) else "")
     t = "[" + inner + "]"
-    if k == 9:
+    if k >= 9:
         t = "[" + t + ("!" if draw(st.booleans()) else "") + "]"
+    if k == 10 and draw(st.booleans()):
+        # three list levels, up to 7 wrappers in all: the depth the standard introspection query can still unwrap
+        t = "[" + t + ("!" if draw(st.integers(0, 3)) else "") + "]"
     return t + ("!" if draw(st.integers(0, 2)) == 0 else "")
 
 
@@ -206,6 +209,8 @@ def specs(draw, rich=True, with_mutation=None, with_subscription=False, max_obje
     scalars = ["S0"] if has_scalar else []
     for s in scalars:
         types[s] = {"kind": "scalar", "name": s, "desc": draw(_DESC)}
+        if draw(st.integers(0, 2)):
+            types[s]["null_on"] = "sc0"   # resolver worlds produce sc0..sc8 for custom scalars
     for e in enums:
         vals = []
         for i in range(draw(st.integers(1, 3))):
@@ -228,7 +233,7 @@ def specs(draw, rich=True, with_mutation=None, with_subscription=False, max_obje
             else:
                 base = draw(st.sampled_from(leaf_in))
                 t = _wrap_out(draw, base)
-            f = {"name": "f%d" % i, "type": t, "desc": draw(_DESC)}
+            f = {"name": draw(st.sampled_from(["f%d", "f%d", "snake_f%d"])) % i, "type": t, "desc": draw(_DESC)}
             if draw(st.integers(0, 3)) == 0:
                 f["python_name"] = "py_%s_%d" % (n.lower(), i)
             fs.append(f)
@@ -257,7 +262,7 @@ def specs(draw, rich=True, with_mutation=None, with_subscription=False, max_obje
         return args
 
     composite = objs + ifaces + (["U0"] if has_union else [])
-    out_bases = BUILTIN_SCALARS + scalars + enums
+    out_bases = BUILTIN_SCALARS + scalars * 3 + enums * 2   # custom scalars and enums have their own serialisation paths
 
     def gen_field(name, allow_composite=True):
         if allow_composite and draw(st.integers(0, 2)) != 0:
@@ -344,6 +349,10 @@ def specs(draw, rich=True, with_mutation=None, with_subscription=False, max_obje
     if rich and draw(st.booleans()):
         spec["directives"].append({"name": "cd", "locations": draw(st.sampled_from([["FIELD"], ["FIELD", "QUERY"], ["FIELD_DEFINITION", "OBJECT"], ["FIELD", "FRAGMENT_SPREAD", "INLINE_FRAGMENT"]])),
                                    "args": [{"name": "n", "type": "Int", "default": 1}] if draw(st.booleans()) else [], "desc": draw(_DESC)})
+        if (inputs or enums or scalars) and draw(st.booleans()):
+            # an argument of a type the schema defines itself (transforms must re-point it like any other reference)
+            base = draw(st.sampled_from(inputs + enums + scalars))
+            spec["directives"][-1]["args"].append({"name": draw(st.sampled_from(["t", "type_arg"])), "type": draw(st.sampled_from([base, "[%s]" % base, "[%s!]" % base])), "desc": None})
     return spec
 
 
@@ -498,6 +507,9 @@ def build_code(spec, resolvers=None, order=None):
         if k == "scalar":
             from py_gql.schema.scalars import default_scalar
             built[n] = default_scalar(n, description=t.get("desc"))
+            if t.get("null_on") is not None:
+                # a custom scalar may serialise a value to null (code-built schemas only): null completion rules apply
+                built[n]._serialize = (lambda v, bad=t["null_on"]: None if v == bad else v)
         elif k == "enum":
             built[n] = S.EnumType(n, [S.EnumValue(v["name"], v["value"], description=v.get("desc"),
                                                   deprecation_reason=depr_reason(v.get("deprecated")))
